@@ -1,4 +1,4 @@
-// verif:properties C10 C04
+// verif:properties C10 C04 C17
 package uhppote
 
 import (
@@ -127,3 +127,136 @@ func VerifC10_QuitWithEventInFlight() { c10QuitInFlight() }
 
 // C04: shutting down while an event is in flight does not crash the library
 func VerifC04_ListenQuitWithEventInFlight() { c10QuitInFlight() }
+
+// The same burst under the other canonical schedule: goroutines started by the library do not run until the
+// thread that started them blocks (natively: whatever the Go scheduler does).  Two datagrams are read back to
+// back before anything else gets to run, so a handler that is detached from the read loop would see the
+// receive buffer after it has been reused.  Each delivered status must still be the decoding of its own
+// datagram, in order.
+func c10Burst(k int) {
+	verifZone(0)
+	verifTimedSleeps()
+	dgs := make([][]byte, k)
+	for i := range dgs {
+		dgs[i] = nondetBuffer(keyTag("dg", i), 96)
+		verifAssume(c10Class(dgs[i]) == 1)
+	}
+	t0 := verifClock()
+	verifNetFaults(false)
+	verifNetScript(dgs)
+	last := int64(0)
+	for i := 0; i < k; i++ {
+		a := verifNetArrival(i) - t0
+		if i == 0 {
+			verifAssume(a >= int64(50*time.Millisecond) && a <= int64(200*time.Millisecond))
+		} else {
+			verifAssume(a == last) // a burst: the datagrams arrive together
+		}
+		last = a
+	}
+	lport := uint16(nondetU16("listen.port"))
+	verifAssume(lport >= 20000 && lport < 30000)
+	verifNetPlayTo(int(lport))
+	u := &uhppote{
+		devices:    map[uint32]Device{},
+		driver:     &ut0311{listenAddr: netip.AddrPortFrom(netip.AddrFrom4([4]byte{127, 0, 0, 1}), lport), timeout: time.Second},
+		listenAddr: types.ListenAddrFrom(netip.AddrFrom4([4]byte{127, 0, 0, 1}), lport),
+	}
+	l := &c10Listener{}
+	q := make(chan os.Signal, 1)
+	go func() {
+		time.Sleep(600 * time.Millisecond)
+		q <- os.Interrupt
+	}()
+	verifLazySpawn()
+	err := u.Listen(l, q)
+	verifAssert(err == nil, "Listen (burst): returns without error once signalled")
+	verifAssert(verifGoroutines() == 0, "Listen (burst): no goroutine is left behind")
+	verifAssert(len(l.log) == k, "Listen (burst): exactly one event per well-formed datagram")
+	if len(l.log) == k {
+		for i := 0; i < k; i++ {
+			rec := l.log[i]
+			verifAssert(rec.kind == 'E', "Listen (burst): a well-formed event is delivered to the event callback")
+			if rec.kind == 'E' {
+				checkStatus(&rec.snap, dgs[i], specStatusOf(dgs[i]), "Listen event (burst)")
+				verifAssert(c10SameStatus(rec.st, &rec.snap), "Listen (burst): a delivered status does not change afterwards")
+			}
+		}
+	}
+	verifReach("c10.burst")
+}
+
+func VerifC10_Burst2()      { c10Burst(2) }
+func VerifC17_ListenBurst() { c10Burst(2) }
+func VerifC10_T_Burst3()    { c10Burst(3) }
+
+// The receive loop hands its one reused buffer to the handler: whatever the handler is given must stay the
+// same for as long as it is handling it, however slow it is, and each call gets its own datagram - otherwise
+// the status decoded from it depends on when the next datagram arrives.  The handler here is the harness's: the
+// first call takes 400 ms, the second datagram arrives meanwhile.
+func c17ListenBufferStable() {
+	verifTimedSleeps()
+	dgs := [][]byte{nondetBuffer("dg.0", 96), nondetBuffer("dg.1", 96)}
+	verifAssume(len(dgs[0]) > 0 && len(dgs[1]) > 0)
+	t0 := verifClock()
+	verifNetFaults(false)
+	verifNetScript(dgs)
+	a0, a1 := verifNetArrival(0)-t0, verifNetArrival(1)-t0
+	verifAssume(a0 >= int64(50*time.Millisecond) && a0 <= int64(100*time.Millisecond) && a1 >= a0+int64(50*time.Millisecond) && a1 <= int64(250*time.Millisecond))
+	lport := uint16(nondetU16("listen.port"))
+	verifAssume(lport >= 20000 && lport < 30000)
+	verifNetPlayTo(int(lport))
+	d := &ut0311{listenAddr: netip.AddrPortFrom(netip.AddrFrom4([4]byte{127, 0, 0, 1}), lport), timeout: time.Second}
+	type rec struct {
+		n int
+		b [96]byte
+	}
+	take := func(b []byte) rec {
+		r := rec{n: len(b)}
+		for i := 0; i < 96; i++ {
+			if i < len(b) {
+				r.b[i] = b[i]
+			}
+		}
+		return r
+	}
+	var log []rec
+	stable, calls := true, 0
+	handler := func(b []byte) {
+		snap := take(b)
+		calls++
+		if calls == 1 {
+			time.Sleep(400 * time.Millisecond)
+			if take(b) != snap {
+				stable = false
+			}
+		}
+		log = append(log, snap)
+	}
+	signal, done, gate := make(chan any), make(chan any), make(chan struct{})
+	go func() {
+		time.Sleep(1200 * time.Millisecond)
+		close(gate)
+	}()
+	err := d.Listen(signal, done, handler)
+	verifAssert(err == nil, "listen: the socket opens")
+	if err != nil {
+		return
+	}
+	<-gate
+	close(signal)
+	<-done
+	verifAssert(stable, "listen: the bytes handed to the handler do not change while it is handling them")
+	verifAssert(len(log) == 2, "listen: one handler call per datagram")
+	if len(log) == 2 {
+		for i := 0; i < 2; i++ {
+			same := log[i] == take(dgs[i])
+			verifAssert(same, "listen: the handler is given exactly the datagram's bytes, in arrival order")
+		}
+	}
+	verifAssert(verifGoroutines() == 0 && verifSockOpen() == 0, "listen: socket and goroutines are released at the end")
+	verifReach("c17.listen.stable")
+}
+
+func VerifC17_ListenBufferStable() { c17ListenBufferStable() }
+func VerifC10_ListenBufferStable() { c17ListenBufferStable() }
